@@ -96,12 +96,14 @@ Definition kern_records (b : list N) : outcome (list kentry) :=
 Lemma run_kern_read_eq b : run_kern_read b = (es <- kern_records b ;; Ok (kern_acc es)).
 Proof. reflexivity. Qed.
 
-(* kern.Read never panics and terminates on any byte string (for C02); the
-   number of records it processes, hence the size of the map, is bounded. *)
+(* kern.Read never panics and terminates on any byte string (for C02); every
+   record it processes costs six bytes of input of its own (subtables do not
+   overlap, fixes/C02-kern-overlapping-subtables.diff), so the work and the
+   size of the map are linear in the input. *)
 Lemma kern_read_total_pf : forall b,
   run_kern_read b <> Panic /\ run_kern_read b <> OutOfFuel /\
   (forall km, run_kern_read b = Ok km ->
-     (6 * length km <= N.to_nat (nth 2%nat b 0%N * 256%N + nth 3%nat b 0%N)%N * length b)%nat).
+     (6 * length km <= length b)%nat).
 Proof.
   intros b. rewrite run_kern_read_eq.
   pose proof (kern_entries_no_crash kern_minSubtableLength k_maskSel kern_flagsWanted k_maskMin k_maskOvr kern_version b) as Hn.
@@ -112,7 +114,16 @@ Proof.
   unfold kern_records, kern_entries in E.
   destruct b as [|v0 [|v1 [|t0 [|t1 r]]]]; try discriminate.
   destruct (negb _); [discriminate|].
-  apply kern_tables_bound in E. cbn [nth]. pose proof (kern_acc_length es). lia.
+  apply kern_tables_bound in E. pose proof (kern_acc_length es). lia.
+Qed.
+
+(* the records themselves: six bytes of input each *)
+Lemma kern_records_linear_pf : forall b es, kern_records b = Ok es -> (6 * length es <= length b)%nat.
+Proof.
+  intros b es E. unfold kern_records, kern_entries in E.
+  destruct b as [|v0 [|v1 [|t0 [|t1 r]]]]; try discriminate.
+  destruct (negb _); [discriminate|].
+  apply kern_tables_bound in E. lia.
 Qed.
 
 (* What kern.Read stores for a pair is the table read for that pair alone:
